@@ -52,6 +52,10 @@ func HistoryRootAt(events []D, v uint64) D {
 	return histNode(events, 0, uint16(bits.Len64(v)), v)
 }
 
+// HistoryNodeAt is the hash of the node at (index i, height h) in the history
+// tree of version v.
+func HistoryNodeAt(events []D, i uint64, h uint16, v uint64) D { return histNode(events, i, h, v) }
+
 func histNode(events []D, i uint64, h uint16, v uint64) D {
 	if h == 0 {
 		return sum(events[i][:], histPos(i, 0))
